@@ -1,8 +1,9 @@
 (** C12 — Sharding: deterministic, order-independent routing with minimal
     disruption.  Statements only; proofs in Sharding/Rendezvous*.v. *)
 From Coq Require Import List NArith Lia Permutation.
-From BBS Require Import Common.ListX Generated.Consts
-     Sharding.Rendezvous Sharding.RendezvousArith Sharding.RendezvousProofs.
+From BBS Require Import Common.Sx Common.SxFactsMA Common.ListX Generated.Consts
+     Sharding.Rendezvous Sharding.RendezvousArith Sharding.RendezvousProofs
+     Sharding.MonSilentSel Run.R12 Run.R12Proofs.
 Import ListNotations.
 Open Scope N_scope.
 
@@ -106,3 +107,56 @@ Proof.
   - cbn. repeat constructor; cbn; intuition; discriminate.
   - intros p [<-|[<-|[<-|[]]]]; cbn; split; lia || reflexivity.
 Qed.
+
+(** ** The monitors are silent on the model (and on every observation the
+    judge accepts as agreeing with it).
+
+    [mon12_sel]/[mon12_ba] are the property as decidable checks on an
+    observation.  Selector cases: for every input in which each variant
+    accepted by the constructor has weights >= 1 ([wf12_sel]; NO bound on
+    hashes or key hashes -- splitmix64 wraps), the monitor does not fire on
+    the model's own output.  Blob-access cases: no hypothesis; moreover the
+    monitor is silent on every observation [agree12_ba] accepts (a FindMissing
+    failure may name any one of the failing shards).  Finally, for the judge
+    that the driver runs: "agree" implies "no violation". *)
+Theorem monitor_silent_on_model_selector : forall inp, wf12_sel inp -> mon12_sel inp (run12_sel inp) = nil.
+Proof. exact mon12_sel_silent. Qed.
+Print Assumptions monitor_silent_on_model_selector.
+
+Theorem monitor_silent_on_model_blobaccess : forall inp, mon12_ba inp (run12_ba inp) = nil.
+Proof. exact mon12_ba_silent. Qed.
+Print Assumptions monitor_silent_on_model_blobaccess.
+
+Theorem monitor_silent_on_allowed_observations : forall inp obs,
+  agree12_ba inp obs = true -> mon12_ba inp obs = nil.
+Proof. exact mon12_ba_silent_on_allowed. Qed.
+Print Assumptions monitor_silent_on_allowed_observations.
+
+Theorem judge_agree_implies_no_violation : forall inp obs,
+  (sx_Z (sx_nth inp 0) = 0%Z -> wf12_sel inp) ->
+  judged_agree (judge12 inp obs) = true -> judged_violates (judge12 inp obs) = false.
+Proof. exact judge12_agree_not_violates. Qed.
+Print Assumptions judge_agree_implies_no_violation.
+
+(** [agree12_ba] is literally the agreement computed by [judge12]. *)
+Theorem judge_fields_blobaccess : forall inp obs,
+  sx_Z (sx_nth inp 0) <> 0%Z ->
+  judged_agree (judge12 inp obs) = agree12_ba inp obs /\
+  judged_violates (judge12 inp obs) = negb (match mon12_ba inp obs with nil => true | _ => false end).
+Proof. exact judge12_ba_fields. Qed.
+Print Assumptions judge_fields_blobaccess.
+
+(** The hypothesis is needed: two zero-weight shards listed in both orders
+    (the harness would execute this input -- it only refuses weights above
+    2^32-1 -- but its generators never emit weight 0 and the property text
+    excludes it).  Non-vacuity: a pool with a 70-bit key hash, the maximal
+    weight, a 65-bit object hash and a rejected variant meets [wf12_sel]. *)
+Example monitor_on_model_needs_nonzero_weights :
+  let inp := L [A 0; L [L [A 0; A 5; A 0]; L [A 1; A 9; A 0]]; L [L [A 0; A 1]; L [A 1; A 0]]; L [A 1]]%Z in
+  mon12_sel inp (run12_sel inp) = [1%Z].
+Proof. exact mon12_sel_needs_nonzero_weights. Qed.
+
+Example wf12_sel_nonvacuous :
+  wf12_sel (L [A 0; L [L [A 0; A 5; A 1]; L [A 1; A (2 ^ 70); A 4294967295]; L [A 2; A 5; A 0]];
+               L [L [A 0; A 1]; L [A 1; A 0]; L [A 0; A 2]]; L [A 1; A (2 ^ 64)]]%Z).
+Proof. exact wf12_sel_example. Qed.
